@@ -1023,6 +1023,11 @@ def simplify_under_guard(t: Any, guard, sa: SetAlg) -> Any:
             if changed:
                 return (s_[0], s_[1], s_[2], s_[3], tuple(new_gens), s_[5])
             return None
+        if s_[0] == "call" and s_[1] in ("sorted", "tuple", "list") and len(s_[2]) == 1 and is_term(s_[2][0]) and s_[2][0][0] in ("attr", "var") \
+                and all(k_ in ("key", "reverse") for k_, _v in (s_[3] or ())):
+            # the copy / sorted copy of a collection the guard knows to be empty is the empty sequence
+            if decided(("truth", s_[2][0])) is False:
+                return ("tuplelit", ()) if s_[1] == "tuple" else ("listlit", ())
         if s_[0] == "op" and len(s_) == 4 and s_[1] == "|":
             if is_empty(s_[3]):
                 return s_[2]
